@@ -438,7 +438,13 @@ pub fn drive(ctx: &Ctx, c: &ConcCase, after_arm: &dyn Fn(u64, u64)) -> Result<Dr
                     bs.push(p);
                 }
                 Err(e) => {
-                    o.fail("batch-entry-refused", format!("a write batch within the limits refused an entry: {e:?}"));
+                    // acceptance is demanded up to the smallest documented maximum only
+                    let size: usize = es.iter().map(|e| entry_size(e.key.len(), e.ts, e.val.as_ref().map(|v| v.len()))).sum();
+                    if size as u64 > MUST_ACCEPT {
+                        o.label("refused-above-documented-maximum:batch(case-skipped)");
+                        return Err(o);
+                    }
+                    o.fail("batch-entry-refused", format!("a write batch of {size} bytes refused an entry: {e:?}"));
                     return Err(o);
                 }
             }
@@ -483,6 +489,10 @@ pub fn drive(ctx: &Ctx, c: &ConcCase, after_arm: &dyn Fn(u64, u64)) -> Result<Dr
                         let Prepared::Batch(wb) = p else { continue };
                         if let Err(e) = b.append(&wb) {
                             shim::disarm();
+                            if wb.approximate_size() as u64 > MUST_ACCEPT {
+                                o.label("refused-above-documented-maximum:prefill(case-skipped)");
+                                return Err(o);
+                            }
                             o.fail("append-refused", format!("LogBuilder::append of a prefill batch failed: {e:?}"));
                             return Err(o);
                         }
@@ -853,7 +863,8 @@ fn judge(c: &ConcCase, d: &Driven, o: &mut Outcome) {
     let (pile_established, writes, syncs, shim_len, odd) = (*pile_established, *writes, *syncs, *shim_len, *odd);
     let nt = c.threads.len();
     let total_batches: usize = plan.iter().map(|t| t.len()).sum();
-    // 1. every append succeeded
+    let mut refused: std::collections::BTreeSet<(usize, usize)> = Default::default();
+    // 1. every append (up to the documented maximum size) succeeded
     for (t, rs) in recs.iter().enumerate() {
         if rs.len() != plan[t].len() {
             o.inconclusive = true;
@@ -862,10 +873,19 @@ fn judge(c: &ConcCase, d: &Driven, o: &mut Outcome) {
         }
         for (s, r) in rs.iter().enumerate() {
             if let Some(e) = &r.err {
+                // acceptance is demanded up to the smallest documented maximum only; a larger batch
+                // that was refused need not be in the log
+                if payload[t][s] > MUST_ACCEPT {
+                    refused.insert((t, s));
+                    continue;
+                }
                 o.fail("conc-append-error", format!("append of batch {s} of thread {t} ({} payload bytes) failed: {e}", payload[t][s]));
                 return;
             }
         }
+    }
+    if !refused.is_empty() {
+        o.label("refused-above-documented-maximum:append");
     }
     for (i, f) in d.fsyncs.iter().enumerate() {
         if let Some(e) = &f.err {
@@ -893,17 +913,18 @@ fn judge(c: &ConcCase, d: &Driven, o: &mut Outcome) {
         o.label(format!("harness: the shim saw {shim_len} bytes ({odd} short or failed writes), the file has {}", bytes.len()));
         return;
     }
-    // 2. layout
-    let groups = match parse_frames(&bytes).and_then(|f| group_frames(&f)) {
-        Ok(g) => g,
-        Err(e) => {
-            o.fail("frame-layout", format!("the file written by {nt} threads is not a sequence of whole / first+second frames with zero padding: {e}"));
-            return;
+    // 2. layout: the frame format is parsed independently (needed to say where a batch ends in the
+    // file); if the parser can not follow the file, that is recorded and the checks that need
+    // offsets are skipped.  The writer's placement decisions are recorded, not judged.
+    let groups: Option<Vec<Group>> = match parse_frames(&bytes).and_then(|f| group_frames(&f)) {
+        Ok(g) => Some(g),
+        Err(_) => {
+            o.label("layout:independent-parser-can-not-follow-the-file");
+            None
         }
     };
-    if let Err(e) = check_placement(&groups) {
-        o.fail("frame-layout", format!("in the file written by {nt} threads {e}"));
-        return;
+    if let Some(g) = &groups {
+        o.label(if check_placement(g).is_ok() { "layout:placement-as-documented" } else { "layout:placement-differs-from-the-documented-rule" });
     }
     // 3. entries, through the path-based reader
     let Ok(rb) = read_back(plan, &d.opts, path, o) else { return };
@@ -921,48 +942,67 @@ fn judge(c: &ConcCase, d: &Driven, o: &mut Outcome) {
         }
     }
     for (t, p) in plan.iter().enumerate() {
+        let mut last: Option<(usize, usize)> = None;
         for s in 0..p.len() {
-            if !pos.contains_key(&(t, s)) {
+            let Some(i) = pos.get(&(t, s)).copied() else {
+                if refused.contains(&(t, s)) {
+                    continue;
+                }
                 o.fail("conc-batch-missing", format!("batch {s} of thread {t} is not in the file although its append returned Ok ({} of {total_batches} batches present)", order.len()));
                 return;
+            };
+            if let Some((ls, li)) = last {
+                if li > i {
+                    o.fail("conc-thread-order", format!("thread {t}'s batch {s} precedes its batch {ls} in the file"));
+                    return;
+                }
             }
-            if s > 0 && pos[&(t, s - 1)] > pos[&(t, s)] {
-                o.fail("conc-thread-order", format!("thread {t}'s batch {s} precedes its batch {} in the file", s - 1));
+            last = Some((s, i));
+        }
+    }
+    // 5. batches <-> frames.  Judged: no frame group may hold the end of one batch and part of
+    // another (a cut behind it would show a partial batch).  How many batches share a group, or how
+    // many groups a batch takes, is the writer's business.
+    let in_order: Vec<u64> = order.iter().map(|(t, s)| payload[*t][*s]).collect();
+    let ends: Option<BTreeMap<(usize, usize), u64>> = match &groups {
+        Some(g) => match batch_ends(g, &in_order) {
+            Ok(e) => Some(order.iter().copied().zip(e).collect()),
+            Err(e) => {
+                o.fail("conc-batch-straddles-frames", format!("the file written by {nt} threads reads back correctly but {e}"));
                 return;
             }
-        }
-    }
-    // 5. batches <-> frames
-    let (group_of, members, k) = match assign_groups(&groups, &order, payload) {
-        Ok(x) => x,
-        Err((gi, acc)) => {
-            o.fail("conc-batch-straddles-frames", format!("frame group #{gi} carries {} payload bytes, which is not the sum of consecutive whole batches ({acc})", groups[gi].payload));
-            return;
-        }
+        },
+        None => None,
     };
-    if let Some((gi, g)) = groups.iter().enumerate().find(|(_, g)| g.payload > BLOCK) {
-        o.fail("conc-merged-batch-too-large", format!("frame group #{gi} carries {} payload bytes, more than the 1 MiB batch limit", g.payload));
-        return;
-    }
-    if k != order.len() {
-        o.fail("conc-batch-straddles-frames", format!("{} batches were read but the frames account for {k}", order.len()));
-        return;
+    // (statistics and the coalescing labels need "a group = consecutive whole batches")
+    let assigned = groups.as_ref().and_then(|g| assign_groups(g, &order, payload).ok()).filter(|(_, _, k)| *k == order.len());
+    if let Some((gi, g)) = groups.iter().flatten().enumerate().find(|(_, g)| g.payload > BLOCK) {
+        o.label("coalescing:a-frame-group-carries-more-than-1MiB");
+        let _ = (gi, g);
     }
     // 6. durable at return
-    for (t, rs) in recs.iter().enumerate() {
-        for (s, r) in rs.iter().enumerate() {
-            let g = &groups[group_of[&(t, s)]];
-            if g.end > r.synced_at_return {
-                o.fail(
-                    "conc-not-durable-at-return",
-                    format!(
-                        "append of batch {s} of thread {t} returned while only the first {} bytes of the file were covered by a completed fdatasync; the batch occupies bytes {}..{} ({} fdatasync calls and {} writes in the whole run)",
-                        r.synced_at_return, g.start, g.end, syncs, writes
-                    ),
-                );
-                return;
+    match &ends {
+        Some(ends) => {
+            for (t, rs) in recs.iter().enumerate() {
+                for (s, r) in rs.iter().enumerate() {
+                    let Some(end) = ends.get(&(t, s)).copied() else { continue };
+                    if r.err.is_some() {
+                        continue;
+                    }
+                    if end > r.synced_at_return {
+                        o.fail(
+                            "conc-not-durable-at-return",
+                            format!(
+                                "append of batch {s} of thread {t} returned while only the first {} bytes of the file were covered by a completed fdatasync; the frame holding the batch's last byte ends at {end} ({} fdatasync calls and {} writes in the whole run)",
+                                r.synced_at_return, syncs, writes
+                            ),
+                        );
+                        return;
+                    }
+                }
             }
         }
+        None => o.label("durability-not-judged(file-layout-not-followed)"),
     }
     // 7. real-time order: an append that returned before another one was called precedes it
     {
@@ -982,77 +1022,48 @@ fn judge(c: &ConcCase, d: &Driven, o: &mut Outcome) {
     }
     // 8. setsum
     let mut want = sst::Setsum::default();
-    for th in plan.iter() {
-        for b in th.iter() {
-            want += setsum_of(b);
+    for (t, th) in plan.iter().enumerate() {
+        for (s, b) in th.iter().enumerate() {
+            // (a refused over-size batch counts if, and only if, it is in the log)
+            if !refused.contains(&(t, s)) || pos.contains_key(&(t, s)) {
+                want += setsum_of(b);
+            }
         }
     }
     if want != setsum {
         o.fail("conc-seal-setsum", format!("seal returned setsum {} but the appended entries sum to {}", setsum.hexdigest(), want.hexdigest()));
         return;
     }
-    // 9. forced pile-ups must be coalesced
-    let merged = members.iter().filter(|m| m.len() >= 2).count() as u64;
-    let max_merge = members.iter().map(|m| m.len()).max().unwrap_or(0) as u64;
-    if pile_established {
-        let followers: u64 = (1..nt).map(|t| payload[t][0]).sum();
-        match c.mode {
-            Mode::PileupWrite => {
-                if followers <= BLOCK {
-                    let g1 = group_of[&(1, 0)];
-                    if (1..nt).any(|t| group_of[&(t, 0)] != g1) || members[g1].len() != nt - 1 {
-                        o.fail(
-                            "pileup-not-coalesced-write",
-                            format!(
-                                "{} threads were parked in append (together {followers} payload bytes <= 1 MiB) while the head's write was in progress; the next head wrote them as {} separate frame groups ({} write calls in all) instead of one merged batch",
-                                nt - 1,
-                                (1..nt).map(|t| group_of[&(t, 0)]).collect::<std::collections::BTreeSet<_>>().len(),
-                                writes
-                            ),
-                        );
-                        return;
-                    }
-                    o.label("pileup-write:merged-into-one-write");
-                } else {
-                    o.label("pileup-write:more-than-1MiB-waiting");
-                }
-            }
-            Mode::PileupSync => {
-                if syncs > 2 {
-                    o.fail("pileup-not-coalesced-fsync", format!("{} threads were parked in append, their data written, while the head's fdatasync was in progress; afterwards {} more fdatasync calls were issued instead of one covering every waiter", nt - 1, syncs - 1));
-                    return;
-                }
-                o.label("pileup-sync:one-fdatasync-for-all-waiters");
-            }
-            Mode::Free => {}
-        }
-    } else if c.mode != Mode::Free {
-        o.label("pileup-not-established");
-    }
-    // measurements
+    // 9. coalescing (performance, not part of the property): recorded only
     o.label(format!("mode:{:?}", c.mode));
     o.label(format!("threads:{nt}"));
     o.label(format!("batches:{}", bucket(total_batches as u64)));
-    o.label(format!("merged-writes:{}", bucket(merged)));
-    o.label(format!("largest-merge:{}", bucket(max_merge)));
     o.label(format!("fdatasyncs-per-append:{}", if syncs as usize >= total_batches { "1" } else if syncs as usize * 2 >= total_batches { ">=1/2" } else { "<1/2" }));
-    if groups.iter().any(|g| g.split.is_some()) {
-        o.label("split-frame");
-    }
-    if groups.iter().any(|g| g.split.is_none() && g.pad_before > 0) {
-        o.label("padded-frame");
-    }
-    if write_trace.len() == groups.len() && write_trace.iter().zip(groups.iter()).all(|(w, g)| w.0 == g.start && w.0 + w.1 == g.end) {
-        o.label("one-write-per-frame-group");
-    } else {
-        o.label("writes-differ-from-frame-groups");
-    }
-    if members.iter().zip(groups.iter()).any(|(m, g)| m.len() >= 2 && g.split.is_some()) {
-        o.label("merged-and-split");
-    }
     conc_labels(c, d, o);
-    if c.mode == Mode::PileupWrite && pile_established {
+    for f in d.fsyncs.iter() {
+        o.label(if f.synced_at_return >= f.len_before { "fsync():everything-written-before-the-call-synced-at-return" } else { "fsync():returned-while-bytes-written-before-the-call-were-unsynced" });
+    }
+    if pile_established && c.mode == Mode::PileupSync {
+        o.label(if syncs > 2 { "pileup-sync:NOT-coalesced(more-than-one-further-fdatasync)" } else { "pileup-sync:one-fdatasync-for-all-waiters" });
+    }
+    if !pile_established && c.mode != Mode::Free {
+        o.label("pileup-not-established");
+    }
+    let (Some(groups), Some((group_of, members, _))) = (&groups, &assigned) else {
+        o.label("layout:frame-groups-are-not-runs-of-whole-batches(no-merge-statistics)");
+        return;
+    };
+    let merged = members.iter().filter(|m| m.len() >= 2).count() as u64;
+    let max_merge = members.iter().map(|m| m.len()).max().unwrap_or(0) as u64;
+    if pile_established && c.mode == Mode::PileupWrite {
         let followers: u64 = (1..nt).map(|t| payload[t][0]).sum();
+        let all_in = (1..nt).all(|t| group_of.contains_key(&(t, 0)));
+        if followers <= BLOCK && all_in {
+            let g1 = group_of[&(1, 0)];
+            o.label(if (1..nt).any(|t| group_of[&(t, 0)] != g1) || members[g1].len() != nt - 1 { "pileup-write:NOT-coalesced(waiters<=1MiB-in-several-frame-groups)" } else { "pileup-write:merged-into-one-write" });
+        } else {
+            o.label("pileup-write:more-than-1MiB-waiting");
+        }
         let d = followers as i64 - BLOCK as i64;
         if d.abs() <= 80 {
             o.label(format!("pileup-write:waiters-total:{}", match d {
@@ -1067,12 +1078,24 @@ fn judge(c: &ConcCase, d: &Driven, o: &mut Outcome) {
             o.label("pileup-write:maximal-batch-waits-with-a-tiny-one");
         }
     }
-    if let Some(g) = members.iter().zip(groups.iter()).find(|(m, _)| m.len() >= 2).map(|(_, g)| g).filter(|g| g.payload == BLOCK) {
-        let _ = g;
-        o.label("merged-write-of-exactly-1MiB");
+    o.label(format!("merged-writes:{}", bucket(merged)));
+    o.label(format!("largest-merge:{}", bucket(max_merge)));
+    if groups.iter().any(|g| g.split.is_some()) {
+        o.label("split-frame");
     }
-    for f in d.fsyncs.iter() {
-        o.label(if f.synced_at_return >= f.len_before { "fsync():everything-written-before-the-call-synced-at-return" } else { "fsync():returned-while-bytes-written-before-the-call-were-unsynced" });
+    if groups.iter().any(|g| g.split.is_none() && g.pad_before > 0) {
+        o.label("padded-frame");
+    }
+    if write_trace.len() == groups.len() && write_trace.iter().zip(groups.iter()).all(|(w, g)| w.0 == g.start && w.0 + w.1 == g.end) {
+        o.label("one-write-per-frame-group");
+    } else {
+        o.label("writes-differ-from-frame-groups");
+    }
+    if members.iter().zip(groups.iter()).any(|(m, g)| m.len() >= 2 && g.split.is_some()) {
+        o.label("merged-and-split");
+    }
+    if members.iter().zip(groups.iter()).any(|(m, g)| m.len() >= 2 && g.payload == BLOCK) {
+        o.label("merged-write-of-exactly-1MiB");
     }
     o.nontrivial = merged >= 1;
 }
